@@ -1,4 +1,5 @@
 import Naga.Model.Emitter
+import Naga.Model.Registry
 /-!
 C09 — lowering yields a well-formed IR module: the emit-range discipline.
 
@@ -239,3 +240,76 @@ example : (run [.start, .addPre, .addEmit, .addPre, .addEmit, .addEmit, .finish]
 
 end Naga.Emitter
 
+
+/-! ### type registry: deduplication (internal/registry.TypeRegistry.GetOrCreate) -/
+
+namespace Naga.Registry
+
+theorem findIdx?_some_get (a : Arena) (e : Entry) (i : Nat) (h : a.findIdx? (· == e) = some i) : a[i]? = some e := by
+  rw [List.findIdx?_eq_some_iff_getElem] at h
+  obtain ⟨hi, he, _⟩ := h
+  rw [List.getElem?_eq_getElem hi]
+  simp at he
+  rw [he]
+
+/-- The returned handle denotes the requested type. -/
+theorem getOrCreate_handle (a : Arena) (e : Entry) : (getOrCreate a e).1[(getOrCreate a e).2]? = some e := by
+  unfold getOrCreate
+  split
+  · rename_i i h; exact findIdx?_some_get a e i h
+  · simp
+
+/-- Existing handles keep their meaning. -/
+theorem getOrCreate_prefix (a : Arena) (e : Entry) (i : Nat) (hi : i < a.length) : (getOrCreate a e).1[i]? = a[i]? := by
+  unfold getOrCreate
+  split
+  · rfl
+  · exact List.getElem?_append_left hi
+
+/-- No two entries of the arena are equal — structurally equal types (with equal names, in
+particular two anonymous ones) appear once — and this is preserved by every request. -/
+theorem getOrCreate_nodup (a : Arena) (e : Entry) (h : a.Nodup) : (getOrCreate a e).1.Nodup := by
+  unfold getOrCreate
+  split
+  · exact h
+  · rename_i hn
+    rw [List.findIdx?_eq_none_iff] at hn
+    rw [List.nodup_append]
+    refine ⟨h, by simp, ?_⟩
+    intro x hx y hy
+    simp at hy; subst hy
+    intro hxe; subst hxe
+    have := hn x hx
+    simp at this
+
+/-- A repeated request returns the same handle and does not grow the arena. -/
+theorem getOrCreate_idem (a : Arena) (e : Entry) :
+    getOrCreate (getOrCreate a e).1 e = ((getOrCreate a e).1, (getOrCreate a e).2) := by
+  cases h : a.findIdx? (· == e) with
+  | some i => simp [getOrCreate, h]
+  | none =>
+    have hfind : (a ++ [e]).findIdx? (· == e) = some a.length := by
+      rw [List.findIdx?_eq_some_iff_getElem]
+      refine ⟨by simp, by simp, ?_⟩
+      intro j hj
+      rw [List.findIdx?_eq_none_iff] at h
+      have hja : j < a.length := hj
+      rw [List.getElem_append_left hja]
+      have := h (a[j]) (List.getElem_mem hja)
+      simpa using this
+    simp [getOrCreate, h, hfind]
+
+theorem runReqs_nodup : ∀ (reqs : List Entry) (a : Arena), a.Nodup → (runReqs a reqs).1.Nodup
+  | [], a, h => h
+  | e :: es, a, h => by
+    simp only [runReqs]
+    exact runReqs_nodup es _ (getOrCreate_nodup a e h)
+
+/-- Starting from the empty arena, every request sequence, of any length, leaves an arena without
+duplicates. -/
+theorem registry_dedup (reqs : List Entry) : (runReqs [] reqs).1.Nodup := runReqs_nodup reqs [] List.nodup_nil
+
+example : (runReqs [] [("", .scalar 1 4), ("", .array 0 (some 12) 16), ("", .scalar 1 4), ("", .array 0 (some 12) 16), ("A", .scalar 1 4)]).2
+    = [0, 1, 0, 1, 2] := by decide
+
+end Naga.Registry
